@@ -90,6 +90,14 @@ PREVIOUS_RUNNER = [None]
 
 
 # ------------------------------------------------------------------------------ failure kinds
+def text_of(err):
+    """str(err) for the event log - an exception that cannot be printed is still an exception."""
+    try:
+        return str(err)
+    except Exception as trouble:  # noqa: B902
+        return "<%s without text: %s>" % (type(err).__name__, type(trouble).__name__)
+
+
 class CustomWithArgs(Exception):
     def __init__(self, code, detail):
         super().__init__(code, detail)
@@ -100,6 +108,13 @@ class CustomBase(BaseException):
     pass
 
 
+class Unprintable(Exception):
+    """A failure that cannot be turned into text: reporting it must never replace it."""
+
+    def __str__(self):
+        raise TypeError("this failure has no text")
+
+
 def make_exception(kind):
     table = {
         "LookupError": lambda: LookupError("lookup failed"),
@@ -107,6 +122,7 @@ def make_exception(kind):
         "TypeError": lambda: TypeError("payload() got an unexpected argument"),
         "KeyError": lambda: KeyError("k"),
         "CustomWithArgs": lambda: CustomWithArgs(7, "detail"),
+        "Unprintable": lambda: Unprintable("hidden"),
         "StopIteration": lambda: StopIteration("stop"),
         "StopAsyncIteration": lambda: StopAsyncIteration("stop"),
         "TimeoutError": lambda: TimeoutError("timed out"),
@@ -271,7 +287,7 @@ def do_adopt(world, child_id, by, strict=False, same=False):
     try:
         ret = world.runner.adopt(fn, *args, flavour=FLAVOURS[child["flavour"]], **kwargs)
     except BaseException as err:  # noqa: B036
-        LOG("raised", op="adopt", pid=child_id, by=by, gen=world.gen, exc=type(err).__name__, msg=str(err)[:200])
+        LOG("raised", op="adopt", pid=child_id, by=by, gen=world.gen, exc=type(err).__name__, msg=text_of(err)[:200])
         if strict or isinstance(err, (KeyboardInterrupt, SystemExit, GeneratorExit, asyncio.CancelledError, trio.Cancelled)):
             raise  # strict: the calling payload does not expect adopt to fail, the error hits its own code
         return
@@ -291,7 +307,7 @@ def do_execute(world, child_id, by):
         ret = world.runner.execute(fn, *args, flavour=FLAVOURS[child["flavour"]], **kwargs)
     except BaseException as err:  # noqa: B036
         want = world.raised.get(child_id)
-        LOG("raised", op="execute", pid=child_id, by=by, gen=world.gen, exc=type(err).__name__, msg=str(err)[:200],
+        LOG("raised", op="execute", pid=child_id, by=by, gen=world.gen, exc=type(err).__name__, msg=text_of(err)[:200],
             same_object=err is want, payload_raised=want is not None,
             same_type_and_args=want is not None and type(err) is type(want) and err.args == want.args,
             same_name_and_args=want is not None and type(err).__name__ == type(want).__name__ and err.args == want.args)
@@ -341,7 +357,7 @@ def do_shutdown(world, by):
     try:
         world.runner.shutdown()
     except BaseException as err:  # noqa: B036
-        LOG("raised", op="shutdown", by=by, gen=world.gen, exc=type(err).__name__, msg=str(err)[:300])
+        LOG("raised", op="shutdown", by=by, gen=world.gen, exc=type(err).__name__, msg=text_of(err)[:300])
         return
     LOG("return", op="shutdown", by=by, gen=world.gen)
 
@@ -516,7 +532,7 @@ async def run_async(world, pspec, args, kwargs):
                         try:
                             world.runner.adopt(make_payload(world, child), flavour=FLAVOURS[op[1]])
                         except Exception as err:  # noqa: B902 - judged by C03, not here
-                            LOG("raised", op="adopt", pid=cid, by=pid, gen=world.gen, exc=type(err).__name__, msg=str(err)[:100])
+                            LOG("raised", op="adopt", pid=cid, by=pid, gen=world.gen, exc=type(err).__name__, msg=text_of(err)[:100])
                             break
                         await lib.sleep(0)
                 elif kind == "exec_loop":
@@ -792,7 +808,7 @@ def play(world, ops, by):
                 try:
                     world.runner._meta_runner.stop()
                 except BaseException as err:  # noqa: B036
-                    LOG("raised", op="stop", by=by, gen=world.gen, exc=type(err).__name__, msg=str(err)[:300])
+                    LOG("raised", op="stop", by=by, gen=world.gen, exc=type(err).__name__, msg=text_of(err)[:300])
                 else:
                     LOG("return", op="stop", by=by, gen=world.gen)
             elif kind == "wait_event":
@@ -809,7 +825,7 @@ def play(world, ops, by):
                 try:
                     other.accept()
                 except BaseException as err:  # noqa: B036
-                    LOG("raised", op="second_accept", by=by, gen=world.gen, exc=type(err).__name__, msg=str(err)[:200])
+                    LOG("raised", op="second_accept", by=by, gen=world.gen, exc=type(err).__name__, msg=text_of(err)[:200])
                 else:
                     LOG("return", op="second_accept", by=by, gen=world.gen)
                 if len(op) > 1 and op[1] == "cleanup":
@@ -818,7 +834,7 @@ def play(world, ops, by):
                         other.shutdown()
                         LOG("rejected-runner-shut-down", by=by, gen=world.gen)
                     except BaseException as err:  # noqa: B036
-                        LOG("raised", op="shutdown-of-rejected-runner", by=by, gen=world.gen, exc=type(err).__name__, msg=str(err)[:200])
+                        LOG("raised", op="shutdown-of-rejected-runner", by=by, gen=world.gen, exc=type(err).__name__, msg=text_of(err)[:200])
             elif kind == "gc":
                 gc.collect()
             elif kind == "drop_service":
@@ -890,7 +906,7 @@ def driver(world):
             try:
                 world.runner.shutdown()
             except BaseException as err:  # noqa: B036
-                LOG("raised", op="shutdown", by="harness", gen=world.gen, exc=type(err).__name__, msg=str(err)[:300])
+                LOG("raised", op="shutdown", by="harness", gen=world.gen, exc=type(err).__name__, msg=text_of(err)[:300])
             else:
                 LOG("return", op="shutdown", by="harness", gen=world.gen)
     LOG("driver-done", gen=world.gen)
@@ -976,10 +992,10 @@ def run_generation(gen_spec, index):
                 if any(isinstance(r, OrphanedReturn) and r.value is value for r in reach):
                     matched.append(pid)
             direct = [pid for pid, exc in list(world.raised.items()) if any(r is exc for r in causes(err))]
-            LOG("accept-ended", gen=index, outcome="raised", exc=type(err).__name__, msg=str(err)[:200],
+            LOG("accept-ended", gen=index, outcome="raised", exc=type(err).__name__, msg=text_of(err)[:200],
                 cause=type(err.__cause__).__name__ if err.__cause__ is not None else None,
                 matched=sorted(set(matched)), reach=[type(r).__name__ for r in reach][:12], direct=sorted(set(direct)),
-                reach_msgs=[str(r)[:160] for r in reach if not isinstance(r, BaseExceptionGroup)][:6])
+                reach_msgs=[text_of(r)[:160] for r in reach if not isinstance(r, BaseExceptionGroup)][:6])
         else:
             LOG("accept-ended", gen=index, outcome="returned")
 
